@@ -472,8 +472,10 @@ Definition dlen (gap : option str) (s : str) : Z :=
 Definition win_ok_g (q : bioseq) (w : window) (update_fts : bool) (gap : option str) : bool :=
   win_ok_len (dlen gap (sdata q)) (sfts q) w update_fts.
 (* a sequence object inside the domain: upper-case nucleotide alphabet, features inside the (residue) range *)
+(* the nucleotide alphabet plus U: BioSeq.complement handles RNA by U->T, translate, T->U (C05 model [complement]) *)
+Definition in_alpha_u (c : byte) : bool := in_alpha c || byte_eqb c cU.
 Definition state_ok (gap : option str) (q : bioseq) : bool :=
-  forallb in_alpha (sdata q) && forallb (ft_in (dlen gap (sdata q))) (sfts q).
+  forallb in_alpha_u (sdata q) && forallb (ft_in (dlen gap (sdata q))) (sfts q).
 Definition wf_C06 (data : str) (fts : list rawft) (w : rawwin) (update_fts : bool) (splitter filler gap : option str) : bool :=
   ascii_str data && forallb in_alpha (upper data) && opt_ascii splitter && opt_ascii filler && opt_ascii gap &&
   match build_fts fts, build_win w with
@@ -490,8 +492,20 @@ Definition show_ft (f : feature) : val := VL [VOpt VS (ftype f); VL (map show_lo
 Definition show_seq (q : bioseq) : val := VL [VS (sdata q); VL (map show_ft (sfts q))].
 Definition show_res (r : res bioseq) : val := match r with Ok q => show_seq q | Err e => VE e end.
 
+(* the domain the harness decides with: wf_C06 (DNA, what the theorems are stated on) widened to RNA; the model functions are
+   the same, only the alphabet test differs (theorem C06_wf_dna_in_rna: wf_C06 implies wf_C06u) *)
+Definition wf_C06u (data : str) (fts : list rawft) (w : rawwin) (update_fts : bool) (splitter filler gap : option str) : bool :=
+  ascii_str data && forallb in_alpha_u (upper data) && opt_ascii splitter && opt_ascii filler && opt_ascii gap &&
+  match build_fts fts, build_win w with
+  | Ok fs, Ok ow =>
+      let q := new_seq data fs in
+      forallb (ft_in (dlen gap (sdata q))) fs &&
+      match ow with Some win => win_ok_g q win update_fts gap | None => true end
+  | _, _ => false
+  end.
+
 Definition run_C06 (mode : Z) (data : str) (fts : list rawft) (w : rawwin) (update_fts : bool) (splitter filler gap : option str) : val :=
-  VL [VB (wf_C06 data fts w update_fts splitter filler gap && negb (mode =? 2));
+  VL [VB (wf_C06u data fts w update_fts splitter filler gap && negb (mode =? 2));
       show_res (run_op_m mode data fts w update_fts splitter filler gap)].
 
 (* ---- histories on ONE sequence object: windows interleaved with in-place edits (the model is pure: every step is the
@@ -605,3 +619,131 @@ Fixpoint ordered (lt : loc -> loc -> bool) (l : list loc) : bool :=
   | _ => true
   end.
 Definition is_pm (c : byte) : bool := byte_eqb c S_FORWARD || byte_eqb c S_REVERSE.
+
+(* ---- round 6: the two feature-cutting paths under gap x update_fts, stated side by side ---- *)
+(* adj(i) as a number (adj never returns None for a given bound) *)
+Definition adj_z (g s : str) (i : Z) : Z := match adj g s (Some i) with Some c => c | None => i end.
+(* the residue-numbered bounds [a, b) fall on the columns with the same numbers (no gap column before residue b) *)
+Definition aligned (g s : str) (a b : Z) : bool := (adj_z g s a =? a) && (adj_z g s b =? b).
+
+(* ---- round 6: BioBasket._getitem, seq.py:848-874 ---- *)
+(* a basket element: an opaque tag (the id in its metadata, carried along) and the sequence *)
+Definition belem := (Z * bioseq)%type.
+(* PySlice_AdjustIndices for one bound (CPython sliceobject.c), any step *)
+Definition adj_idx (len step i : Z) : Z :=
+  if i <? 0 then (if i + len <? 0 then (if step <? 0 then -1 else 0) else i + len)
+  else if len <=? i then (if step <? 0 then len - 1 else len) else i.
+Definition slice_len (start stop step : Z) : Z :=
+  if step <? 0 then (if stop <? start then (start - stop - 1) / (- step) + 1 else 0)
+  else (if start <? stop then (stop - start - 1) / step + 1 else 0).
+(* for (cur = start, i = 0; i < slicelength; cur += step, i++) dest[i] = src[cur], listobject.c list_subscript *)
+Fixpoint take_step {A} (n : nat) (cur step : Z) (l : list A) : list A :=
+  match n with
+  | O => []
+  | S k => match nth_error l (Z.to_nat cur) with
+           | Some x => x :: take_step k (cur + step) step l
+           | None => []
+           end
+  end.
+(* list[a:b:step] *)
+Definition list_slice {A} (l : list A) (a b st : option Z) : res (list A) :=
+  let len := Z.of_nat (length l) in
+  let step := match st with None => 1 | Some k => k end in
+  if step =? 0 then Err E_Value
+  else
+    let start := match a with None => if step <? 0 then len - 1 else 0 | Some i => adj_idx len step i end in
+    let stop := match b with None => if step <? 0 then -1 else len | Some i => adj_idx len step i end in
+    Ok (take_step (Z.to_nat (slice_len start stop step)) start step l).
+(* list[i] *)
+Definition list_item {A} (l : list A) (i : Z) : res A :=
+  let len := Z.of_nat (length l) in
+  let k := if i <? 0 then i + len else i in
+  if (k <? 0) || (len <=? k) then Err E_Index
+  else match nth_error l (Z.to_nat k) with Some x => Ok x | None => Err E_Index end.
+(* [f(x) for x in l]: the first exception ends the comprehension *)
+Fixpoint map_res {A B} (f : A -> res B) (l : list A) : res (list B) :=
+  match l with
+  | [] => Ok []
+  | x :: r => bind (f x) (fun y => bind (map_res f r) (fun ys => Ok (y :: ys)))
+  end.
+
+Inductive bindex :=
+| BInt (i : Z)                                   (* seqs[i] *)
+| BSlice (a b st : option Z)                     (* seqs[a:b:st] *)
+| BWin (w : window)                              (* seqs['type'], seqs[feature], seqs[location] *)
+| BPairI (i : Z) (w : window)                    (* seqs[i, w] *)
+| BPairS (a b st : option Z) (w : window)        (* seqs[a:b:st, w] *)
+| BPairBad (w : window)                          (* seqs['x', w]: first component neither int nor slice *)
+| BBad                                           (* a tuple of another length / an object without len *)
+| BRc.                                           (* not an index: seqs.rc(update_fts=u), BioBasket.rc seq.py:780-787 (in place) *)
+Inductive bres := BOne (e : belem) | BMany (l : list belem).
+
+(* seq._getitem(w, **kw) on one element; the metadata (tag) goes along *)
+Definition elem_getitem (w : window) (u : bool) (sp fi gap : option str) (e : belem) : res belem :=
+  bind (getitem_g (snd e) w u sp fi gap) (fun r => Ok (fst e, r)).
+(* BioBasket.rc: for seq in self: seq.rc(update_fts=...) - every sequence about its OWN length *)
+Definition basket_rc (qs : list belem) (u : bool) : list belem := map (fun e => (fst e, seq_rc (snd e) u)) qs.
+Definition basket_getitem (qs : list belem) (ix : bindex) (u : bool) (sp fi gap : option str) : res bres :=
+  match ix with
+  | BRc => Ok (BMany (basket_rc qs u))
+  | BInt i => bind (list_item qs i) (fun e => Ok (BOne e))                                  (* seq.py:856-857 *)
+  | BSlice a b st => bind (list_slice qs a b st) (fun l => Ok (BMany l))                     (* seq.py:858-859 *)
+  | BWin w => bind (map_res (elem_getitem w u sp fi gap) qs) (fun l => Ok (BMany l))         (* seq.py:860-862 *)
+  | BPairI i w => bind (list_item qs i) (fun e => bind (elem_getitem w u sp fi gap e) (fun r => Ok (BOne r)))   (* 865-866 *)
+  | BPairS a b st w =>                                                                       (* seq.py:867-869 *)
+      bind (list_slice qs a b st) (fun l => bind (map_res (elem_getitem w u sp fi gap) l) (fun r => Ok (BMany r)))
+  | BPairBad _ => Err E_Type                                                                 (* seq.py:870-871 *)
+  | BBad => Err E_Type                                                                       (* seq.py:872-873 *)
+  end.
+
+(* harness input *)
+Inductive rawbidx :=
+| QInt (i : Z) | QSlice (a b st : option Z) | QWin (w : rawwin) | QPairI (i : Z) (w : rawwin)
+| QPairS (a b st : option Z) (w : rawwin) | QPairBad (w : rawwin) | QBad | QRc.
+(* the driver builds the window object first (its constructor may raise); rc is no basket index *)
+Definition build_bwin (w : rawwin) : res window :=
+  bind (build_win w) (fun ow => match ow with Some x => Ok x | None => Err E_Value end).
+Definition build_bidx (ix : rawbidx) : res bindex :=
+  match ix with
+  | QInt i => Ok (BInt i)
+  | QSlice a b st => Ok (BSlice a b st)
+  | QWin w => bind (build_bwin w) (fun x => Ok (BWin x))
+  | QPairI i w => bind (build_bwin w) (fun x => Ok (BPairI i x))
+  | QPairS a b st w => bind (build_bwin w) (fun x => Ok (BPairS a b st x))
+  | QPairBad w => bind (build_bwin w) (fun x => Ok (BPairBad x))
+  | QBad => Ok BBad
+  | QRc => Ok BRc
+  end.
+Fixpoint build_basket (k : Z) (raw : list (str * list rawft)) : res (list belem) :=
+  match raw with
+  | [] => Ok []
+  | (d, fts) :: r => bind (build_fts fts) (fun fs => bind (build_basket (k + 1) r) (fun t => Ok ((k, new_seq d fs) :: t)))
+  end.
+Definition bindex_win (ix : bindex) : option window :=
+  match ix with
+  | BWin w | BPairI _ w | BPairS _ _ _ w | BPairBad w => Some w
+  | _ => None
+  end.
+(* domain: every sequence of the basket (selected or not) is a sequence of the C06 domain and the window is inside each *)
+Definition wf_C06b (raw : list (str * list rawft)) (ix : rawbidx) (u : bool) (sp fi gap : option str) : bool :=
+  forallb (fun r => ascii_str (fst r)) raw && opt_ascii sp && opt_ascii fi && opt_ascii gap &&
+  match build_basket 0 raw, build_bidx ix with
+  | Ok qs, Ok bx =>
+      forallb (fun e => state_ok gap (snd e)) qs &&
+      (match bx with BWin (WLoc _) | BWin (WFeat _) | BWin (WType _) => true | BWin _ => false | _ => true end) &&
+      match bindex_win bx with
+      | Some w => (match w with WOwn _ => false | _ => true end) && forallb (fun e => win_ok_g (snd e) w u gap) qs
+      | None => true
+      end
+  | _, _ => false
+  end.
+Definition show_elem (e : belem) : val := VL [VI (fst e); show_seq (snd e)].
+Definition show_bres (r : res bres) : val :=
+  match r with
+  | Ok (BOne e) => VL [VS (bs "seq"%bs); show_elem e]
+  | Ok (BMany l) => VL [VS (bs "basket"%bs); VL (map show_elem l)]
+  | Err e => VE e
+  end.
+Definition run_C06b (raw : list (str * list rawft)) (ix : rawbidx) (u : bool) (sp fi gap : option str) : val :=
+  VL [VB (wf_C06b raw ix u sp fi gap);
+      show_bres (bind (build_basket 0 raw) (fun qs => bind (build_bidx ix) (fun bx => basket_getitem qs bx u sp fi gap)))].
